@@ -262,7 +262,10 @@ class Unit:
         for ordinal in sorted(loops, reverse=True):
             spec = loops[ordinal]
             kwpos, bpos, kw = found[ordinal]
-            txt = _emit_clauses('invariant', _clauses(spec.get('inv')), ind='        ')
+            txt = ''
+            if spec.get('inv_eb'):
+                txt += _emit_clauses('invariant_except_break', _clauses(spec.get('inv_eb')), ind='        ')
+            txt += _emit_clauses('invariant', _clauses(spec.get('inv')), ind='        ')
             if spec.get('ens'):
                 txt += _emit_clauses('ensures', _clauses(spec.get('ens')), ind='        ')
             if spec.get('dec'):
@@ -296,6 +299,12 @@ class Unit:
         return attrs + sig + '\n' + contract + body + '\n'
 
     def _rewrite(self, text, pat, rep, cnt, name, stats):
+        if callable(pat):
+            new = pat(text)
+            if new == text and cnt:
+                raise LostAnchor('%s: structural rewrite %s did not apply' % (name, getattr(pat, '__name__', '?')))
+            stats['Rx'] += 1
+            return new
         if isinstance(pat, str):
             k = text.count(pat)
             new = text.replace(pat, rep)
